@@ -9,6 +9,7 @@ func init() {
 	vHarness["C05_lexer"] = VerifHarness_C05_lexer
 	vHarness["C05_soup"] = VerifHarness_C05_soup
 	vHarness["C05_forcount"] = VerifHarness_C05_forcount
+	vHarness["C05_equ3"] = VerifHarness_C05_equ3
 	vHarness["C05_equ"] = VerifHarness_C05_equ
 	vHarness["C05_fortail"] = VerifHarness_C05_fortail
 }
@@ -152,6 +153,92 @@ func VerifHarness_C05_equ() {
 		vReach("rejected")
 	} else {
 		vAssert("error-xor-warrior", len(w.Code) == 1)
+		vReach("accepted")
+	}
+	vReach("end")
+}
+
+// three EQU definitions x, y, z whose values mention the other names, also
+// the same name twice before a third one (the shape that decides whether the
+// reference graph is complete): assembling terminates, a cycle that the
+// used name can reach is rejected, and acyclic definitions are accepted
+func VerifHarness_C05_equ3() {
+	names := []string{"x", "y", "z"}
+	tmpl := make([]int, 3)
+	var lines []sourceLine
+	edges := [3][3]bool{}
+	for d := 0; d < 3; d++ {
+		n1, n2 := (d+1)%3, (d+2)%3
+		t := vPick("tmpl", 0, 5)
+		tmpl[d] = t
+		nm := func(i int) token { return token{tokText, names[i]} }
+		plus := token{tokSymbol, "+"}
+		var v []token
+		switch t {
+		case 0:
+			v = []token{{tokNumber, "1"}}
+		case 1:
+			v = []token{nm(n1)}
+			edges[d][n1] = true
+		case 2:
+			v = []token{nm(n1), plus, nm(n1), plus, nm(n2)}
+			edges[d][n1], edges[d][n2] = true, true
+		case 3:
+			v = []token{nm(n1), plus, nm(n2), plus, nm(n1)}
+			edges[d][n1], edges[d][n2] = true, true
+		case 4:
+			v = []token{nm(n1), plus, nm(n1), plus, nm(d)}
+			edges[d][n1], edges[d][d] = true, true
+		default:
+			v = []token{nm(n2)}
+			edges[d][n2] = true
+		}
+		lines = append(lines, sourceLine{typ: linePseudoOp, op: "equ", labels: []string{names[d]}, a: v})
+	}
+	lines = append(lines, sourceLine{typ: lineInstruction, op: "dat", a: []token{{tokText, "x"}}})
+	// reachability from x, and whether a cycle is reachable
+	reach := [3]bool{true, false, false}
+	for r := 0; r < 3; r++ {
+		for a := 0; a < 3; a++ {
+			for b := 0; b < 3; b++ {
+				if reach[a] && edges[a][b] {
+					reach[b] = true
+				}
+			}
+		}
+	}
+	// transitive closure
+	tc := edges
+	for k := 0; k < 3; k++ {
+		for a := 0; a < 3; a++ {
+			for b := 0; b < 3; b++ {
+				if tc[a][k] && tc[k][b] {
+					tc[a][b] = true
+				}
+			}
+		}
+	}
+	cycleReachable, anyCycle := false, false
+	for a := 0; a < 3; a++ {
+		if tc[a][a] {
+			anyCycle = true
+			if reach[a] {
+				cycleReachable = true
+			}
+		}
+	}
+	c, err := newCompiler(lines, WarriorData{}, ConfigNOP94)
+	vAssert("compiler-created", err == nil)
+	vUnwind(40)
+	w, err := c.compile()
+	vUnwind(64)
+	if err != nil {
+		vAssert("error-xor-warrior", w.Code == nil)
+		vAssert("acyclic-definitions-accepted", anyCycle)
+		vReach("rejected")
+	} else {
+		vAssert("error-xor-warrior", len(w.Code) == 1)
+		vAssert("reachable-cycle-rejected", !cycleReachable)
 		vReach("accepted")
 	}
 	vReach("end")
